@@ -142,10 +142,29 @@ def check_pred(g, pred):
     if name == 'equals':
         want = {tuple(e) for e in a[0]}
         return None if g['E'] == want else 'edges {} instead of {}'.format(sorted(g['E']), sorted(want))
-    if name == 'blocks_independent':      # t blocks of N consecutive vertices carry no inner edge
-        N = a[0]
-        bad = [(u, v) for u, v in g['E'] if (u - 1) // N == (v - 1) // N]
-        return None if not bad else 'edges inside a block: {}'.format(bad)
+    if name == 'balanced_multipartite':   # the vertices split into t independent classes of N vertices each
+        N, t = a[0], a[1]
+        if g['n'] != N * t:
+            return '{} vertices instead of {}'.format(g['n'], N * t)
+        adj = {v: set() for v in range(1, g['n'] + 1)}
+        for u, v in g['E']:
+            adj[u].add(v)
+            adj[v].add(u)
+        classes = [[] for _ in range(t)]
+
+        def place(v):
+            if v > g['n']:
+                return True
+            for c in classes:
+                if len(c) < N and not (adj[v] & set(c)):
+                    c.append(v)
+                    if place(v + 1):
+                        return True
+                    c.pop()
+                if not c:
+                    break             # empty classes are interchangeable
+            return False
+        return None if place(1) else 'not {}-partite with {} vertices per part: edges {}'.format(t, N, sorted(g['E']))
     if name == 'iso':
         kind, p = a[0], a[1]
         if kind == 'grid':
